@@ -139,9 +139,33 @@ def gen(rng: Any, tier: str, i: int) -> Any:
             s[0] = at
             s[5] = 0  # back-to-back burst without yields
     subs.sort(key=lambda x: x[0])
-    return {"kind": kind, "nmsg": nmsg, "subs": subs,
+    churn_at = None
+    if len({x[0] for x in subs}) >= 2 and rng.random() < 0.25:
+        # between two subscriptions the rest of the program keeps the interpreter busy with other generic types (every
+        # `Broadcast[X]`, `Sender[Y]`, `dict[str, Z]` evaluated at run time goes through typing's 128-entry cache):
+        # what `Sample[Quantity]` evaluates to is then a new, equal object
+        times = sorted({x[0] for x in subs})
+        churn_at = rng.choice(times[1:])
+    return {"kind": kind, "nmsg": nmsg, "subs": subs, "typing_churn_before_msg": churn_at,
             "yields": [rng.choice([0, 0, 1, 2, 10]) for _ in range(nmsg)],
             "pauses": [rng.random() < 0.2 for _ in range(nmsg)]}
+
+
+_CHURN = [0]
+
+
+def _typing_churn() -> None:
+    """140 generic parametrisations the process has not seen before (typing caches the last 128)."""
+    import typing
+
+    T = typing.TypeVar("T")
+
+    class _G(typing.Generic[T]):
+        pass
+
+    for _ in range(140):
+        _CHURN[0] += 1
+        _G[type(f"X{_CHURN[0]}", (), {})]  # pylint: disable=expression-not-assigned
 
 
 async def _drive(case: dict[str, Any], out: dict[str, Any]) -> None:
@@ -173,6 +197,8 @@ async def _drive(case: dict[str, Any], out: dict[str, Any]) -> None:
     si = 0
     subs = case["subs"]
     for n in range(case["nmsg"]):
+        if case.get("typing_churn_before_msg") == n:
+            _typing_churn()
         while si < len(subs) and subs[si][0] == n:
             _, ns, mi, dup, unknown, yields = subs[si][:6]
             st = subs[si][6] if len(subs[si]) > 6 else None
@@ -299,6 +325,8 @@ def check(case: dict[str, Any], rec: Any) -> None:
         rec.bucket("subscription-before-first-message")
     if any(s[0] > 0 for s in subs):
         rec.bucket("subscription-between-messages")
+    if case.get("typing_churn_before_msg") is not None:
+        rec.bucket("other-generic-types-evaluated-between-two-subscriptions")
     if any(s[3] for s in subs):
         rec.bucket("duplicate-request")
     if any(s[4] for s in subs):
